@@ -122,7 +122,7 @@ ODD_KINDS = ["data_after_response", "connect_no_path", "non_ascii_path", "invali
              "priority_before_headers", "rst_closed", "wu_closed", "continuation", "padded", "req_trailers",
              "ext_connect_no_protocol", "zero_data_flood", "settings_churn", "ping_flood", "huge_header",
              "empty_header_value", "authority_non_utf8", "dup_pseudo", "rst_open", "data_on_idle_rst", "non_ascii_method", "late_data_flood",
-             "frames_on_refused_connect", "data_during_ws_rejection", "frames_during_blocked_end_stream"]
+             "frames_on_refused_connect", "data_during_ws_rejection", "frames_during_blocked_end_stream", "refused_then_rst"]
 
 # kinds the statement names as "merely unusual or invalid at the HTTP level": siblings must complete
 STREAM_LEVEL = {"data_after_response", "connect_no_path", "non_ascii_path", "invalid_utf8_path", "rst_closed",
@@ -228,6 +228,20 @@ def _case_grammar(rng, n, kind=None):
     elif kind == "non_ascii_path":
         steps.append(["feed", fb.headers(odd_sid, [(b":method", b"GET"), (b":scheme", b"http"),
                                                    (b":path", "/café".encode("utf-8")), (b":authority", b"h.example")], end_stream=True)])
+    elif kind == "refused_then_rst":
+        # a request the server refuses on its own stream (non-ASCII path / method; or, with the priority tree full, any request), cancelled
+        # by the client in the very same read: the server's reset meets a stream that is already closed
+        hd = rng.choice([[(b":method", b"GET"), (b":scheme", b"http"), (b":path", "/café".encode("utf-8")), (b":authority", b"h.example")],
+                         [(b":method", b"G\xc3\xa9T"), (b":scheme", b"http"), (b":path", b"/m"), (b":authority", b"h.example")],
+                         None])
+        b = b""
+        if hd is None:
+            for k in range(1001):
+                b += fb.priority(odd_sid + 2 * k + 100, dep=0, weight=16)
+            hd = base_h
+        b += fb.headers(odd_sid, hd, end_stream=rng.random() < 0.5) + fb.rst(odd_sid, 8)
+        steps.append(["feed", b])
+        expect_conn_error = None
     elif kind == "non_ascii_method":
         steps.append(["feed", fb.headers(odd_sid, [(b":method", rng.choice([b"\xd0ET", b"G\xc3\xa9T", b"\xff"])), (b":scheme", b"http"),
                                                    (b":path", b"/m"), (b":authority", b"h.example")], end_stream=True)])
